@@ -24,3 +24,13 @@ Check canon_closed : forall fuel T t bs v fr r,
   closed_o (map fst bs) 0 v = true
   /\ length bs = length fr /\ NoDup (map snd fr)
   /\ (forall x, In x (map snd fr) <-> In x (map snd (occs r))).
+
+(** ... hence (const types being usize) every canonicalized value is a closed query in the sense
+    of [wf_answer_applies]. *)
+Theorem canon_query_wf : forall fuel T t bs v fr r n,
+  canonicalize fuel T t = Done ((bs, v), fr) -> resolve fuel T 0 t = Done r -> kinds_consistent (occs r) ->
+  consts_usize v = true -> wf_query (n, (bs, v)) = true.
+Proof. exact canon_query_wf_lemma. Qed.
+Check canon_query_wf : forall fuel T t bs v fr r n,
+  canonicalize fuel T t = Done ((bs, v), fr) -> resolve fuel T 0 t = Done r -> kinds_consistent (occs r) ->
+  consts_usize v = true -> wf_query (n, (bs, v)) = true.
